@@ -1109,6 +1109,11 @@ fn accepts_prefix_markup(accepts_prefix: &Option<AcceptsPrefix>) -> Markup {
     }
 }
 
+/// A string literal, the way it has to be written in the source
+fn quoted_string(s: &str) -> Markup {
+    m::operator("\"") + m::string(escape_numbat_string(s)) + m::operator("\"")
+}
+
 fn decorator_markup(decorators: &Vec<Decorator>) -> Markup {
     let mut markup_decorators = m::empty();
     for decorator in decorators {
@@ -1133,27 +1138,27 @@ fn decorator_markup(decorators: &Vec<Decorator>) -> Markup {
                 Decorator::Url(url) => {
                     m::decorator("@url")
                         + m::operator("(")
-                        + m::string(url.clone())
+                        + quoted_string(url)
                         + m::operator(")")
                 }
                 Decorator::Name(name) => {
                     m::decorator("@name")
                         + m::operator("(")
-                        + m::string(name.clone())
+                        + quoted_string(name)
                         + m::operator(")")
                 }
                 Decorator::Description(description) => {
                     m::decorator("@description")
                         + m::operator("(")
-                        + m::string(description.clone())
+                        + quoted_string(description)
                         + m::operator(")")
                 }
                 Decorator::Example(example_code, example_description) => {
                     m::decorator("@example")
                         + m::operator("(")
-                        + m::string(example_code.clone())
+                        + quoted_string(example_code)
                         + if let Some(example_description) = example_description {
-                            m::operator(", ") + m::string(example_description.clone())
+                            m::operator(", ") + quoted_string(example_description)
                         } else {
                             m::empty()
                         }
